@@ -593,11 +593,21 @@ def gen(tier, rng, models=("ordered", "unordered"), count=None):
     n = count or (36 if tier != "thorough" else 400)
     for i in range(n):
         model = models[i % len(models)]
-        big = tier == "thorough" and i % 3 == 0
-        on = rng.choice([2, 3, 3, 4] if not big else [4, 5])
-        sn = rng.choice([1, 2, 3] if not big else [3, 4])
-        nf = rng.choice(([3, 4] if big else [1, 2, 3, 3]) if model == "ordered" else [2, 3, 4])
-        osh, ssh = rng.choice(recon.binary_shapes(on)), rng.choice(recon.binary_shapes(sn))
+        if model == "ordered":
+            on = rng.choice([2, 3, 3, 4, 4, 5] if tier == "thorough" else [2, 3, 3, 4, 4])
+            sn = rng.choice([1, 2, 3, 3] if tier != "thorough" else [1, 2, 3, 4])
+            nf = rng.choice([1, 2, 3, 3, 4] if on <= 4 else [2, 3])
+        else:
+            on = rng.choice([3, 4, 4, 5, 5])
+            sn = rng.choice([1, 2, 3, 3, 4])
+            nf = rng.choice([2, 3, 4, 4])
+        shapes = recon.binary_shapes(on)
+        osh = rng.choice(shapes)
+        if rng.random() < 0.3:  # caterpillars: long chains of inheritance
+            osh = ()
+            for _ in range(on - 1):
+                osh = (osh, ()) if rng.random() < 0.5 else ((), osh)
+        ssh = rng.choice(recon.binary_shapes(sn))
         sleaves = [k for k, sh in enumerate(_nodes(ssh)) if not sh]
         fams = list(FAMS[:nf])
         if model == "ordered":
@@ -614,7 +624,7 @@ def gen(tier, rng, models=("ordered", "unordered"), count=None):
                 leaf_syn.append(s)
         else:
             leaf_syn = [sorted(rng.sample(fams, rng.randrange(1, nf + 1))) for _ in range(on)]
-        costs = rng.choice(COSTS) if rng.random() < 0.7 else [rng.randrange(0, 3), rng.randrange(0, 4), rng.choice([0, 1, 2, "inf"]), rng.randrange(0, 3), rng.randrange(0, 3)]
+        costs = rng.choice(COSTS) if rng.random() < 0.6 else [rng.randrange(0, 3), rng.randrange(0, 4), rng.choice([0, 1, 2, "inf"]), rng.randrange(0, 3), rng.randrange(0, 3)]
         algos = ["base_spfs", "ext_spfs"] if model == "ordered" else ["base_uspfs", "superdtl"]
         r = {"obj": osh, "sp": ssh, "leafmap": [rng.choice(sleaves) for _ in range(on)], "leaf_syn": leaf_syn, "costs": costs, "algo": algos[(i // len(models)) % 2]}
         if model == "ordered" and rng.random() < 0.25:
@@ -658,11 +668,11 @@ def run_parallel(recipes, src_root, clauses, stop_after=2):
     return n, viol
 
 
-def standin(name, models, clauses, describe, quick=600, thorough=6000):
+def standin(name, models, clauses, describe, quick=2400, thorough=24000):
     def run(tier, rng, src_root):
         recipes = list(gen(tier, rng, models, count=quick if tier != "thorough" else thorough))
         if tier == "thorough" and "ordered" in models:
-            for r in gen("quick", rng, ("ordered",), count=60):
+            for r in gen("quick", rng, ("ordered",), count=120):
                 if len([x for x in _nodes(recon.tup(r["obj"])) if not x]) <= 3 and len({f for sy in r["leaf_syn"] for f in sy}) <= 3:
                     recipes.append(dict(r, crosscheck=True))
         evals, viol = run_parallel(recipes, src_root, clauses)
